@@ -255,6 +255,13 @@ def count (s : Spec) (prim : List HOp) : Nat :=
   forceOps prim fun prim' => forceZ3ss (ntuples s.m s.types.length) fun nts =>
     sumNat ((tuples (s.types.map (reps prim'))).map (countOs s nts))
 
+/-- Linear parts of the coset representatives that have a lift solving the one-unknown system `s`
+(a subset of the point group; conjugation maps it onto the corresponding subset). -/
+def satRots (s : Spec) (prim : List HOp) : List M3 :=
+  match s.types with
+  | [τ] => ((reps prim τ).filter fun o => (vecsMod s.m).any fun n => sat s [lift n o]).map (·.rot)
+  | _ => []
+
 /-- Invariant vector for a list of systems. -/
 def invVecT (specs : List Spec) (prim : List HOp) : List Nat := specs.map fun s => count s prim
 
